@@ -354,7 +354,18 @@ impl Report {
         if !new_violations.is_empty() {
             let _ = std::fs::create_dir_all(&rdir);
         }
-        for (i, v) in new_violations.iter().enumerate() {
+        // one replay file and VIOLATION line per distinct signature, at most MAX_REPORTED of them
+        // (the remaining signatures are counted in the evidence and on stderr)
+        const MAX_REPORTED: usize = 40;
+        if new_violations.len() > MAX_REPORTED {
+            eprintln!(
+                "[{}] {} distinct violation signatures; writing replay files for the first {}",
+                self.prop,
+                new_violations.len(),
+                MAX_REPORTED
+            );
+        }
+        for (i, v) in new_violations.iter().enumerate().take(MAX_REPORTED) {
             let path = format!("{}/{}-{}.json", rdir, self.tier.name(), i);
             let all: Vec<J> = self.acc.violations[&v.key]
                 .1
